@@ -38,3 +38,5 @@
 ; AX strSplitHead: the first part of strings.Split(s, sep) is the text before the first separator (sep non-empty)
 (assert (forall ((s String) (p String)) (! (=> (> (str.len p) 0)
    (= (shd (strSplit s p)) (ite (str.contains s p) (str.substr s 0 (str.indexof s p 0)) s))) :pattern ((strSplit s p)))))
+; AX yamlParseF yields a Go value
+(assert (forall ((s String)) (! (not (= (yamlParseF s) VAbsent)) :pattern ((yamlParseF s)))))
